@@ -471,6 +471,11 @@ pub fn narrow_impl() -> Box<dyn Narrow> {
 pub fn narrow_only(c: &AbiConnection<dyn Narrow>, x: u32) -> u32 {
     c.only(x)
 }
+/// creates a connection of interface Obj directly and calls it
+pub fn obj_connection(id: u32) -> Result<u32, savefile::SavefileError> {
+    let c = AbiConnection::<dyn Obj>::from_boxed_trait(Box::new(TheObj(DropToken(id))))?;
+    Ok(c.id())
+}
 pub fn call_add(c: &AbiConnection<dyn CallIface>, x: u32) -> u32 {
     c.add(x, 1)
 }
